@@ -320,7 +320,7 @@ pub fn main(args: &Args) -> i32 {
         }
         // failures that arise inside the run, from the world rather than from the hook
         let factory = Factory::new();
-        for kind in ["fatal-in-process", "retry-in-process", "fatal-in-process/late", "fatal-storing-ta"] {
+        for kind in ["fatal-in-process", "retry-in-process", "fatal-in-process/late", "fatal-storing-ta", "retry-in-regular-run"] {
             c33_world(&mut rep, &factory, kind);
         }
     }
@@ -423,7 +423,17 @@ fn c33_one(rep: &mut Report, outs: &[String]) {
 fn c33_world(rep: &mut Report, factory: &Factory, kind: &str) {
     use super::storecrash::{find_files, world};
     let bed = TestBed::new();
-    bed.publish(&world(1, false).build(factory));
+    // retry-in-regular-run: ca3 announces an RRDP repository (which answers 404, so rsync is used); later its local
+    // RRDP archive turns out corrupt (it opens, but holds no state), which is a retryable failure of a regular run
+    let rrdp = kind == "retry-in-regular-run";
+    let notify = "https://r3.verif.test/rrdp/notify.xml";
+    let world_v = |v: u64| { let mut w = world(v, false); if rrdp { w.cas[2].notify = Some(notify.to_string()); } w };
+    if rrdp {
+        routinator::verif::set_http_override(Some(Arc::new(|_: &str, _: Option<&[u8]>, _: Option<i64>| {
+            routinator::verif::HttpReply { status: 404, headers: vec![], body: b"not found".to_vec() }
+        })));
+    }
+    bed.publish(&world_v(1).build(factory));
     let bc = bed.config();
     let threads = if kind.ends_with("/late") { 1 } else { 3 };
     let mut fx = Fixture::start(|c| {
@@ -435,6 +445,7 @@ fn c33_world(rep: &mut Report, factory: &Factory, kind: &str) {
         c.rsync_timeout = bc.rsync_timeout;
         c.validation_threads = threads;
         c.history_size = 10;
+        c.disable_rrdp = !rrdp;
     });
     let mut engine = match routinator::engine::Engine::new(&fx.config, true) { Ok(e) => e, Err(_) => { rep.divergence("C33", "Engine::new failed"); return } };
     if engine.ignite().is_err() { rep.divergence("C33", "engine ignite failed"); return }
@@ -455,12 +466,24 @@ fn c33_world(rep: &mut Report, factory: &Factory, kind: &str) {
         return
     }
     // new data is waiting, and the store is damaged
-    bed.publish_files(&world(2, false).build(factory));
+    bed.publish_files(&world_v(2).build(factory));
     let mut files = Vec::new();
-    find_files(&bed.cache.join("stored").join("rsync"), "ca3.mft", &mut files);
+    find_files(&bed.cache.join("stored"), "ca3.mft", &mut files);
     if files.len() != 1 { rep.divergence("C33", format!("{kind}: stored point of ca3 not found ({})", files.len())); return }
     let initial = kind.starts_with("retry");
     if initial { let _ = std::fs::remove_file(&files[0]); }
+    else if rrdp {
+        use routinator::collector::SnapshotRrdpArchive;
+        let dir = bed.cache.join("rrdp").join("r3.verif.test");
+        let _ = std::fs::create_dir_all(&dir);
+        let path = dir.join(format!("{}.bin", crate::env::rrdp::hex(&crate::env::rrdp::sha256(notify.as_bytes()))));
+        let made = std::fs::OpenOptions::new().read(true).write(true).create(true).truncate(true).open(&path).ok().and_then(|file| {
+            let mut a = SnapshotRrdpArchive::create_with_file(file, Arc::new(path.clone())).ok()?;
+            a.publish_object(&rpki::uri::Rsync::from_string("rsync://r3.verif.test/repo/x.roa".into()).ok()?, b"an object").ok()?;
+            a.finalize().ok()
+        });
+        if made.is_none() { rep.divergence("C33", format!("{kind}: cannot plant the archive")); return }
+    }
     else if kind == "fatal-storing-ta" {
         // the directory the downloaded trust anchor certificate is stored in is a file now: storing it is a fatal I/O error
         let ta_dir = bed.cache.join("stored").join("ta").join("rsync").join("r1.verif.test");
@@ -494,7 +517,7 @@ fn c33_world(rep: &mut Report, factory: &Factory, kind: &str) {
             }
         }
         Err(fatal) => {
-            if fatal == initial { rep.divergence("C33", format!("{kind}: failure class fatal={fatal} unexpected")); }
+            if fatal == (initial || rrdp) { rep.divergence("C33", format!("{kind}: failure class fatal={fatal} unexpected")); }
             if before != after {
                 rep.violation("C33", &format!("failed-run-changed-served-data/world/{kind}"),
                     format!("a run failing inside the validation ('{kind}') changed what is served"), ctx.clone(),
@@ -511,6 +534,7 @@ fn c33_world(rep: &mut Report, factory: &Factory, kind: &str) {
     let _ = std::fs::remove_file(bed.cache.join("stored").join("ta").join("rsync").join("r1.verif.test"));
     let _ = fx.process_once(&none, false);
     trace_end();
+    if rrdp { routinator::verif::set_http_override(None); }
     rep.trace("C33");
 }
 
